@@ -9,8 +9,8 @@ RULE = ("outline: every forest shape with up to N items (N=4 quick, 5 thorough) 
 
 
 def classify(case, code):
-    if code == 6:
-        return "C28-dest-bare-page-number"
+    # no open class: C28-dest-bare-page-number (formerly code 6) is FIXED by fix_dest_page_reference; a destination
+    # that does not resolve to the authored page (a bare page number included) is code 2 -> VIOLATION
     return None
 
 
